@@ -78,6 +78,10 @@ pub fn guarded<T>(f: impl FnOnce() -> T) -> Result<T, PanicInfo> {
                 msg: "<unknown panic>".into(),
                 loc: String::new(),
             });
+            if info.msg == crate::docs::DOC_PANIC_MSG {
+                // the simulated document's own failure (fault kind "call-back unwinds")
+                return Err(PanicInfo { msg: info.msg, loc: "<document>".into() });
+            }
             // the simulator's own files are compiled with relative paths, the engine (path
             // dependency) and its dependencies with absolute ones: a panic in the simulator is a
             // harness error, never a finding about the engine
@@ -178,6 +182,90 @@ pub fn verdict(rule: &Rule, doc: &MVal, render: &Render) -> Result<bool, PanicIn
     matches_doc(rule, &root)
 }
 
+pub const DISTURB_KINDS: u8 = 10;
+
+/// "Another file of the store is loaded in between": a variant of `rule_text`, damaged so that the
+/// loader gets part of the way before it rejects it (kinds 0-6, 8, 9), or an intact copy (7), is
+/// loaded on the calling thread and the result thrown away. A pure loader leaves nothing behind.
+/// Returns "ok" / "rejected" / "panic" for the statistics.
+pub fn disturb(kind: u8, rule_text: &str) -> &'static str {
+    use serde_yaml::Value as Y;
+    let mut y: Y = match serde_yaml::from_str(rule_text) {
+        Ok(y) => y,
+        Err(_) => return "rejected",
+    };
+    let cond = y.get("detection").and_then(|d| d.get("condition")).and_then(|c| c.as_str()).unwrap_or("A").to_owned();
+    let set_cond = |y: &mut Y, c: String| {
+        if let Some(d) = y.get_mut("detection").and_then(|d| d.as_mapping_mut()) {
+            d.insert(Y::String("condition".into()), Y::String(c));
+        }
+    };
+    // first identifier that is a mapping: (its name, its first key)
+    let first_key = |y: &Y| -> Option<(Y, Y)> {
+        let d = y.get("detection")?.as_mapping()?;
+        for (name, v) in d {
+            if let Some(m) = v.as_mapping() {
+                if let Some((k, _)) = m.iter().next() {
+                    return Some((name.clone(), k.clone()));
+                }
+            }
+        }
+        None
+    };
+    let rekey = |y: &mut Y, f: &dyn Fn(&str) -> String| {
+        if let Some((name, k)) = first_key(y) {
+            if let (Some(ks), Some(m)) = (k.as_str(), y.get_mut("detection").and_then(|d| d.get_mut(&name)).and_then(|m| m.as_mapping_mut())) {
+                let mut out = serde_yaml::Mapping::new();
+                for (kk, vv) in m.iter() {
+                    if *kk == k {
+                        out.insert(Y::String(f(ks)), vv.clone());
+                    } else {
+                        out.insert(kk.clone(), vv.clone());
+                    }
+                }
+                *m = out;
+            }
+        }
+    };
+    match kind % DISTURB_KINDS {
+        0 => set_cond(&mut y, format!("{} & B", cond)),
+        1 => set_cond(&mut y, format!("{} = B", cond)),
+        2 => set_cond(&mut y, format!("{} and 1.2.3", cond)),
+        3 => set_cond(&mut y, format!("({}", cond)),
+        4 => rekey(&mut y, &|k| format!("{} & bar", k)),
+        5 => {
+            if let Some((name, k)) = first_key(&y) {
+                if let Some(m) = y.get_mut("detection").and_then(|d| d.get_mut(&name)).and_then(|m| m.as_mapping_mut()) {
+                    m.insert(k, Y::String("?(".into()));
+                }
+            }
+        }
+        6 => set_cond(&mut y, format!("{} and B & C", cond)),
+        7 => {}
+        8 => set_cond(&mut y, format!("{} or zz_no_such_identifier", cond)),
+        _ => rekey(&mut y, &|k| format!("all({}", k)),
+    }
+    match guarded(|| Rule::from_value(y).map(|_| ())) {
+        Ok(Ok(())) => "ok",
+        Ok(Err(_)) => "rejected",
+        Err(_) => "panic",
+    }
+}
+
+/// A match through a document whose `at`-th seam event (entry or exit of a get / iter call)
+/// unwinds. Ok(Some(v)): the engine never got that far and returned v; Ok(None): the document
+/// failed and the panic was contained; Err: a panic that is not the document's.
+pub fn verdict_doc_panics(rule: &Rule, doc: &MVal, render: &Render, at: u32) -> Result<Option<bool>, PanicInfo> {
+    let ctx = Ctx::new(false, vec![], None);
+    ctx.panic_at.store(at as u64, std::sync::atomic::Ordering::Relaxed);
+    let root = build_root(doc, render, &ctx);
+    match matches_doc(rule, &root) {
+        Ok(v) => Ok(Some(v)),
+        Err(p) if p.msg == crate::docs::DOC_PANIC_MSG => Ok(None),
+        Err(p) => Err(p),
+    }
+}
+
 pub fn verdict_with(rule: &Rule, doc: &MVal, render: &Render, ctx: &Arc<Ctx>) -> Result<bool, PanicInfo> {
     let root = build_root(doc, render, ctx);
     matches_doc(rule, &root)
@@ -199,6 +287,12 @@ pub fn verdict3(rule: &Rule, doc: &MVal, render: &Render) -> Result<u8, PanicInf
 #[derive(Clone, Debug, PartialEq, Serialize, Deserialize)]
 pub enum Op {
     Match(usize),
+    /// match document i (multirule: rule * 10_000 + i) through a document whose n-th call-back
+    /// unwinds (the document's own failure); the caller contains the panic and carries on
+    MatchPanic(usize, u32),
+    /// another file of the rule store is loaded on this thread in between - mostly a damaged copy
+    /// of the scenario's rule that the loader rejects part way through (see `disturb`)
+    Disturb(u8),
     CloneRule,
     Serialise,
     Optimise(u8, u64),
@@ -399,6 +493,10 @@ pub struct Outcome {
 /// History digest of a scenario that the wall-clock backstop cut short: what it explored depends
 /// on timing, so its digest is not comparable between executions (process configuration and
 /// selfcheck skip it).
+/// Set in the "descending" child of the C12 process configuration: scenarios that use several
+/// rules load them from the last to the first.
+pub static REVERSE_RULES: std::sync::atomic::AtomicBool = std::sync::atomic::AtomicBool::new(false);
+
 pub const CUT_DIGEST: u64 = 0xc07_5407_c07_5407;
 
 fn digest_of(d: &Digest, stats: &Stats) -> u64 {
